@@ -100,6 +100,7 @@ class AsyncIOClient(ABC):
         self._process_queue_task = asyncio.create_task(self._process_queue())  # Track the process queue task
         self._receive_task = None  # Track the receive loop task
         self._reconnect_task = None  # Track the pending reconnect (at most one at a time)
+        self._seed_task = None  # Track the network map seeding task
 
 
     def set_status_callback(self, callback: Optional[Callable[[State], Awaitable[None]]]):
@@ -224,7 +225,9 @@ class AsyncIOClient(ABC):
                     # Start a new receive loop task
                     self._receive_task = asyncio.create_task(self._receive_loop())
                     if self.seed_network_map:
-                        asyncio.create_task(self._seed_network_map())
+                        if self._seed_task and not self._seed_task.done():
+                            self._seed_task.cancel()  # still seeding over the previous link
+                        self._seed_task = asyncio.create_task(self._seed_network_map())
 
     async def _seed_network_map(self):
         # To seed the network map we will send request for 3 PGNS: 60928, 126996, 126998 
@@ -343,6 +346,13 @@ class AsyncIOClient(ABC):
         # Cancel the process queue task if it exists
         if self._process_queue_task and not self._process_queue_task.done() and self._process_queue_task is not current_task:
             self._process_queue_task.cancel()
+            await asyncio.sleep(0.01)  # Allow cancellation to propagate
+        # The reconnect and seeding tasks would otherwise go on sleeping, connecting and sending after close() returned
+        pending = [task for task in (self._reconnect_task, self._seed_task)
+                   if task and not task.done() and task is not current_task]
+        for task in pending:
+            task.cancel()
+        if pending:
             await asyncio.sleep(0.01)  # Allow cancellation to propagate
         # nothing is decoded any more: flush and close the dump file
         self.decoder.close()
